@@ -25,9 +25,8 @@ for dst, src in json.load(open(W + "/ov/overlay.json"))["Replace"].items():
 EOF
 rsync -a --exclude bin "$V/mc/" "$W/mc/"
 (cd "$W/mc" && go mod edit -replace github.com/mark3labs/flyt="$W/repo" && go build -tags verif -cover -coverpkg=github.com/mark3labs/flyt,flytverif/harness -o "$W/harness" ./harness)
-for p in $PROPS; do
-  GOCOVERDIR="$W/cov" GOMAXPROCS=1 timeout 600 "$W/harness" -prop "$p" -tier quick -shard 0 -nshards 1 -budget "$BUDGET" -out "$W/out.json" >/dev/null 2>&1 || echo "note: $p exited $?"
-done
+export W BUDGET
+echo $PROPS | tr ' ' '\n' | xargs -P 16 -I{} sh -c 'GOCOVERDIR="$W/cov" GOMAXPROCS=1 timeout 1200 "$W/harness" -prop {} -tier quick -shard 0 -nshards 1 -budget "$BUDGET" -out "$W/out-{}.json" >/dev/null 2>&1 || echo "note: {} exited $?"'
 go tool covdata textfmt -i="$W/cov" -o "$W/cover.txt"
 (cd "$W/repo" && grep -v "^flytverif" "$W/cover.txt" > "$W/c2.txt"; go tool cover -func="$W/c2.txt" | sed "s#github.com/mark3labs/flyt/##" | awk '$NF != "100.0%"')
 echo "---- uncovered blocks (rewritten source) ----"
